@@ -10,7 +10,9 @@
    ns=1;<same identifier>; C06_first_uri - index 1 of the document's own table is U (and the Model element names U), so that
    NodeId resolves to (U, identifier).  `regular` has a proved-sound decision procedure which the runner evaluates on every
    generated case.
-   C06_partial: the placement of the REFERENCE elements and the attribute list of a node element are decided by the
+   C06_reference_elements / C06_references_written_once: under a written node exactly the references that point at it (inverse) and those
+   that leave it for a node that is not written (forward); every reference with an endpoint in U is written exactly once, no other is.
+   C06_partial: the attribute list of a node element (beyond NodeId) and its Value are decided by the
    correspondence run (model document = lxml reading of the written text) and by the independent-reader oracle. *)
 From Coq Require Import String Ascii List Bool Arith NArith ZArith.
 Require Import PyStr PyInt Sexp Xml M_C09 M_C08 Ns Table M_Parse M_Write T_Write T_Write2.
@@ -47,6 +49,24 @@ Proof. exact T_Write2.C06_first_uri. Qed.
 Theorem C06_regular_decidable : forall p k refs, regular_b p k refs = true -> regular p k refs.
 Proof. exact regular_b_sound. Qed.
 
+(* placement of the Reference elements: under a written node exactly the references that point at it (written as inverse references) and
+   the references that leave it for a node that is not written (forward references); hence every reference with an endpoint in U is
+   written exactly once and no other reference is written *)
+Theorem C06_reference_elements : forall p k refs, regular p k refs -> forall me,
+  In me (map (fun x : wrow => nr_nodeid (fst (fst x))) (w_written p k (w_in_use p k refs))) ->
+  w_ref_elems p k (w_in_use p k refs) refs me =
+  flat_map (fun t : triple => let '(s, tg, ty) := t in
+    if mem_nid tg (map (fun x : wrow => nr_nodeid (fst (fst x))) (w_written p k (w_in_use p k refs)))
+    then (if nid_eqb tg me then [{| re_attrs := [(lit "ReferenceType", w_text_of p k (w_in_use p k refs) ty); (lit "IsForward", lit "false")]; re_text := Some (w_text_of p k (w_in_use p k refs) s) |}] else [])
+    else if nid_eqb s me then [{| re_attrs := [(lit "ReferenceType", w_text_of p k (w_in_use p k refs) ty)]; re_text := Some (w_text_of p k (w_in_use p k refs) tg) |}] else []) refs.
+Proof. exact ref_elems_exact. Qed.
+Theorem C06_references_written_once : forall p k refs, regular p k refs ->
+  let in_use := w_in_use p k refs in
+  let W := map (fun x : wrow => nr_nodeid (fst (fst x))) (w_written p k in_use) in
+  NoDup W ->
+  length (flat_map (w_ref_elems p k in_use refs) W) = length (filter (fun t : triple => mem_nid (snd (fst t)) W || mem_nid (fst (fst t)) W) refs).
+Proof. exact refs_written_once. Qed.
+
 Print Assumptions C06_refs_all.
 Print Assumptions C06_refs_filtered.
 Print Assumptions C06_unknown_namespace.
@@ -55,3 +75,5 @@ Print Assumptions C06_written_rows_exact.
 Print Assumptions C06_node_elements.
 Print Assumptions C06_first_uri.
 Print Assumptions C06_regular_decidable.
+Print Assumptions C06_reference_elements.
+Print Assumptions C06_references_written_once.
